@@ -235,7 +235,21 @@ pub fn c05_encrypt(ctx: &Ctx, out: &mut RunOut) -> Result<(), Violation> {
     }
     m.max_id = next_id - 1;
 
-    let plain = sim::to_doc(&m);
+    let mut plain = sim::to_doc(&m);
+    // a quarter of the cases: the document to encrypt was loaded from a foreign producer's file
+    // (its object-stream containers and cross-reference stream objects are then part of the
+    // in-memory document and go through encryption like everything else)
+    if ctx.chance(W, 1, 4, "start-from-foreign-file") {
+        use pdfmodel::refwriter::{self, Revision};
+        let revs = vec![Revision { objects: m.objects.clone(), trailer: pdfmodel::trailer_payload(&m.trailer) }];
+        let mut opts = refwriter::draw_opts(ctx, 1, &m.version, &m.binary_mark);
+        opts.raw_cr_eol = false;
+        opts.leading_junk = false;
+        let wr = refwriter::write_history(ctx, &revs, &opts);
+        plain = guarded("load_mem", || sim::load_mem(&wr.bytes))?.map_err(|e| Violation::new("load-failed", format!("load of a reference-writer file: {e}")))?;
+        m = crate::scen_b::expect_for_lopdf(&wr.expect[0]);
+        ctx.count("start-from-foreign-file");
+    }
     let mut enc = plain.clone();
     guarded("Document::encrypt", || enc.encrypt(&state))?.map_err(|e| Violation::new("encrypt-failed", format!("{}: encrypt: {e:?}", setup.label)))?;
     ctx.event("c05-encrypted", enc.objects.len() as u64, sim::full_digest(&enc));
@@ -285,7 +299,7 @@ pub fn c05_encrypt(ctx: &Ctx, out: &mut RunOut) -> Result<(), Violation> {
     // ---- decrypt legs
     let same_as_plain = |d: &lopdf::Document, what: &str| -> Result<(), Violation> {
         let got = sim::from_doc(d);
-        pdfmodel::same_doc(&m, &got, &|_, o| pdfmodel::is_xref_stream_obj(o))
+        pdfmodel::same_doc(&m, &got, &|_, o| pdfmodel::is_xref_stream_obj(o) || pdfmodel::is_objstm_obj(o))
             .map_err(|(c, e)| Violation::new(format!("decrypt:{c}"), format!("{} {what}: {e}", setup.label)))?;
         if dict_get(&got.trailer, b"Encrypt").is_some() {
             return Err(Violation::new("encrypt-entry-left", format!("{} {what}: trailer still has Encrypt", setup.label)));
@@ -396,7 +410,7 @@ pub fn c05_encrypt(ctx: &Ctx, out: &mut RunOut) -> Result<(), Violation> {
                 guarded("Document::decrypt", || x.decrypt(pw))?
                     .map_err(|e| Violation::new("decrypt-rejected", format!("{label2}: decrypt with the new {who} password failed: {e:?}")))?;
                 let got = sim::from_doc(&x);
-                pdfmodel::same_doc(&m, &got, &|_, o| pdfmodel::is_xref_stream_obj(o))
+                pdfmodel::same_doc(&m, &got, &|_, o| pdfmodel::is_xref_stream_obj(o) || pdfmodel::is_objstm_obj(o))
                     .map_err(|(c, e)| Violation::new(format!("decrypt:{c}"), format!("{label2}, decrypt({who}) of the re-encrypted document: {e}")))?;
             }
             // the old passwords are wrong passwords now
